@@ -12,6 +12,10 @@ Definition upd_range (m : Z -> Z) (start : Z) (data : list Z) : Z -> Z :=
 
 Definition create (c : Z) : ring := {| cap := c; wp := 0; rp := 0; mem := fun _ => 0 |}.
 
+(* a ring whose free-running pointers already stand at b (a region that has carried b bytes before):
+   the pointers are 64-bit counters that are never reduced modulo the capacity *)
+Definition create_at (c b : Z) : ring := {| cap := c; wp := b; rp := b; mem := fun _ => 0 |}.
+
 Inductive op :=
 | Write (d : list Z)
 | Read (n : Z)
